@@ -192,7 +192,8 @@ def parse_assumptions(output):
         elif l.startswith("Axioms:"):
             cur = []; blocks.append(cur)
         elif cur is not None:
-            m = re.match(r"^([A-Za-z_][\w.']*)\s*:", l)
+            # "name : type" or, when the type is long, the name alone on its line followed by an indented "  : type"
+            m = re.match(r"^([A-Za-z_][\w.']*)\s*(:|$)", l)
             if m:
                 cur.append(m.group(1))
             elif l.strip() == "" or not l.startswith(" "):
